@@ -2,31 +2,35 @@
    evaluates on a copy, the counterexample when it does not, and agreement with
    the reference evaluation wherever the recorded deviations stay silent. *)
 From Coq Require Import NArith ZArith List Bool Lia.
-From GJ Require Import Base.Bytes Spec.Json Model.Enc Model.Path Gen.PathShape Model.PathEval.
+From GJ Require Import Base.Bytes Spec.Json Model.Enc Proofs.EncP Proofs.EncColorP Model.Path Gen.PathShape Model.PathEval.
 Import ListNotations.
 
 (* what path.go is expected to say *)
 Definition std_sems : node_sems :=
+  {| sel_field := FEqChild; sel_index := INone; idx_field := FNone; idx_index := IEqChild;
+     all_field := FNone; all_index := IAlwaysChild; rec_field := FEqChild; rec_index := IAlwaysSelf |}.
+(* before the repair: a selector applied to an array or object of the other kind was an error *)
+Definition old_sems : node_sems :=
   {| sel_field := FEqChild; sel_index := IErr; idx_field := FErr; idx_index := IEqChild;
      all_field := FErr; all_index := IAlwaysChild; rec_field := FEqChild; rec_index := IAlwaysSelf |}.
 
 (* ---------- purity ---------- *)
-Lemma extract_call_copy_state sems ro st d : snd (extract_call sems true ro st d) = st.
-Proof. unfold extract_call. destruct ro; [reflexivity|]. destruct (ev sems d st); reflexivity. Qed.
+Lemma extract_call_copy_state sems sc ro st d : snd (extract_call sems sc true ro st d) = st.
+Proof. unfold extract_call. destruct ro; [reflexivity|]. destruct (ev sems sc d st); reflexivity. Qed.
 
-Lemma run_copy_pure sems ro st docs :
-  run sems true ro st docs = map (fun d => fst (extract_call sems true ro st d)) docs.
+Lemma run_copy_pure sems sc ro st docs :
+  run sems sc true ro st docs = map (fun d => fst (extract_call sems sc true ro st d)) docs.
 Proof.
   induction docs as [|d r IH]; cbn [run map]; [reflexivity|].
-  pose proof (extract_call_copy_state sems ro st d) as E.
-  destruct (extract_call sems true ro st d) as [o st'] eqn:C. cbn [snd fst] in *. subst st'.
+  pose proof (extract_call_copy_state sems sc ro st d) as E.
+  destruct (extract_call sems sc true ro st d) as [o st'] eqn:C. cbn [snd fst] in *. subst st'.
   rewrite IH. reflexivity.
 Qed.
 
 (* whatever documents one Path value met before, valid or not, answered or
    failed: the answer for the next document is the answer of a fresh Path *)
-Theorem extract_pure sems ro st before d :
-  last (run sems true ro st (before ++ [d])) None = fst (extract_call sems true ro st d).
+Theorem extract_pure sems sc ro st before d :
+  last (run sems sc true ro st (before ++ [d])) None = fst (extract_call sems sc true ro st d).
 Proof.
   rewrite run_copy_pure, map_app. cbn [map]. apply last_last.
 Qed.
@@ -36,65 +40,63 @@ Definition w_path : list pnode := [NSel [97]; NSel [98]].
 Definition w_bad : jv := JObj [([97], false, JArr [JLeaf (TNum [49])])].               (* {"a":[1]} *)
 Definition w_good : jv := JObj [([97], false, JObj [([98], false, JLeaf (TNum [50]))])]. (* {"a":{"b":2}} *)
 Lemma extract_shared_cursor_refuted :
-  last (run std_sems false false (expand w_path) ([w_bad] ++ [w_good])) None
-  <> fst (extract_call std_sems false false (expand w_path) w_good).
+  last (run old_sems false false false (expand w_path) ([w_bad] ++ [w_good])) None
+  <> fst (extract_call old_sems false false false (expand w_path) w_good).
 Proof. vm_compute. discriminate. Qed.
 
 (* ---------- agreement with the reference evaluation ---------- *)
 Lemma expand_nil ns : expand ns = [] <-> ns = [].
 Proof. destruct ns as [|[n|i| |n] r]; cbn; split; intro H; try discriminate; reflexivity. Qed.
 
+Notation EV := (ev std_sems true).
+Definition Ref (ns : list pnode) (v : jv) : list res := map RTree (ref_eval ns v).
+
 Section Ref.
   Variable r : list pnode.
-  Hypothesis IH : forall x, r <> [] -> fits r x = true ->
-                            fst (ev std_sems x (expand r)) = Some (map RTree (ref_eval r x)).
+  Hypothesis IH : forall x, r <> [] -> exists s, EV x (expand r) = (Some (Ref r x), s).
 
   (* what one found member / element contributes *)
-  Lemma found_contrib x : fits r x = true ->
+  Lemma found_contrib x :
     match expand r with
-    | [] => [RTree x] = map RTree (ref_eval r x)
-    | _ :: _ => exists s, ev std_sems x (expand r) = (Some (map RTree (ref_eval r x)), s)
+    | [] => [RTree x] = Ref r x
+    | _ :: _ => exists s, EV x (expand r) = (Some (Ref r x), s)
     end.
   Proof.
-    intro F. destruct (expand r) as [|c cs] eqn:E.
+    destruct (expand r) as [|c cs] eqn:E.
     - apply expand_nil in E. subst r. reflexivity.
     - assert (N : r <> []) by (intro Z; subst r; discriminate).
-      pose proof (IH x N F) as H.
-      destruct (ev std_sems x (c :: cs)) as [o s]. cbn [fst] in H. subst o. eexists; reflexivity.
+      destruct (IH x N) as [s H]. exists s. exact H.
   Qed.
 
   Lemma obj_sel n ms : forall acc,
-    forallb (fits r) (members_named n ms) = true ->
-    fst (obj_loop std_sems (ev std_sems) (XSel n :: expand r) ms acc)
-    = Some (acc ++ map RTree (flat_map (ref_eval r) (members_named n ms))).
+    obj_loop std_sems EV (XSel n :: expand r) ms acc
+    = (Some (acc ++ map RTree (flat_map (ref_eval r) (members_named n ms))), XSel n :: expand r).
   Proof.
-    induction ms as [|[[k b] x] ms IHm]; intros acc F.
+    induction ms as [|[[k b] x] ms IHm]; intro acc.
     - cbn. rewrite app_nil_r. reflexivity.
-    - cbn [obj_loop do_field by_field std_sems sel_field].
-      unfold members_named in F |- *. cbn [flat_map] in F |- *. fold (members_named n ms) in F |- *.
+    - cbn [obj_loop do_field by_field std_sems sel_field is_rec].
+      unfold members_named. cbn [flat_map]. fold (members_named n ms).
       destruct (list_eqb n k).
-      + cbn [app] in F. cbn [forallb] in F. apply andb_true_iff in F as [Fx Fr].
-        rewrite flat_map_app. cbn [flat_map]. rewrite app_nil_r, map_app.
-        pose proof (found_contrib x Fx) as C.
+      + rewrite flat_map_app. cbn [flat_map]. rewrite app_nil_r, map_app.
+        pose proof (found_contrib x) as C.
         destruct (expand r) as [|c cs].
-        * rewrite IHm by exact Fr. rewrite C, <- app_assoc. reflexivity.
-        * destruct C as [s C]. rewrite C. rewrite IHm by exact Fr. rewrite <- app_assoc. reflexivity.
-      + cbn [app] in F |- *. apply IHm. exact F.
+        * rewrite IHm. fold (Ref r x). rewrite <- C, <- app_assoc. reflexivity.
+        * destruct C as [s C]. rewrite C. rewrite IHm. unfold Ref. rewrite <- app_assoc. reflexivity.
+      + cbn [app]. rewrite IHm. rewrite app_nil_r. reflexivity.
   Qed.
 
   Lemma arr_all es : forall idx acc,
-    forallb (fits r) es = true ->
-    fst (arr_loop std_sems (ev std_sems) (XAll :: expand r) es idx acc)
-    = Some (acc ++ map RTree (flat_map (ref_eval r) es)).
+    arr_loop std_sems EV (XAll :: expand r) es idx acc
+    = (Some (acc ++ map RTree (flat_map (ref_eval r) es)), XAll :: expand r).
   Proof.
-    induction es as [|e es IHe]; intros idx acc F.
+    induction es as [|e es IHe]; intros idx acc.
     - cbn. rewrite app_nil_r. reflexivity.
-    - cbn [arr_loop do_index by_index std_sems all_index]. cbn [forallb] in F. apply andb_true_iff in F as [Fx Fr].
+    - cbn [arr_loop do_index by_index std_sems all_index].
       cbn [flat_map]. rewrite map_app.
-      pose proof (found_contrib e Fx) as C.
+      pose proof (found_contrib e) as C.
       destruct (expand r) as [|c cs].
-      + rewrite IHe by exact Fr. rewrite C, <- app_assoc. reflexivity.
-      + destruct C as [s C]. rewrite C. rewrite IHe by exact Fr. rewrite <- app_assoc. reflexivity.
+      + rewrite IHe. fold (Ref r e). rewrite <- C, <- app_assoc. reflexivity.
+      + destruct C as [s C]. rewrite C. rewrite IHe. unfold Ref. rewrite <- app_assoc. reflexivity.
   Qed.
 
   (* the element a non-negative index i selects from es when the loop stands at position idx *)
@@ -102,83 +104,148 @@ Section Ref.
     if (i <? Z.of_nat idx)%Z then None else nth_error es (Z.to_nat i - idx).
 
   Lemma arr_idx i es : forall idx acc,
-    match pick i idx es with Some e => fits r e = true | None => True end ->
-    fst (arr_loop std_sems (ev std_sems) (XIdx i :: expand r) es idx acc)
-    = Some (acc ++ map RTree (match pick i idx es with Some e => ref_eval r e | None => [] end)).
+    arr_loop std_sems EV (XIdx i :: expand r) es idx acc
+    = (Some (acc ++ map RTree (match pick i idx es with Some e => ref_eval r e | None => [] end)), XIdx i :: expand r).
   Proof.
-    induction es as [|e es IHe]; intros idx acc F.
-    - cbn [arr_loop fst]. unfold pick. destruct (i <? Z.of_nat idx)%Z; [|destruct (Z.to_nat i - idx)%nat]; cbn; rewrite app_nil_r; reflexivity.
+    induction es as [|e es IHe]; intros idx acc.
+    - cbn [arr_loop]. unfold pick. destruct (i <? Z.of_nat idx)%Z; [|destruct (Z.to_nat i - idx)%nat]; cbn; rewrite app_nil_r; reflexivity.
     - cbn [arr_loop do_index by_index std_sems idx_index].
       destruct (Z.eqb_spec i (Z.of_nat idx)) as [E|E].
       + assert (P : pick i idx (e :: es) = Some e).
         { unfold pick. rewrite E, Z.ltb_irrefl, Nat2Z.id, Nat.sub_diag. reflexivity. }
-        rewrite P in F |- *.
+        rewrite P.
         assert (Q : pick i (S idx) es = None).
         { unfold pick. destruct (Z.ltb_spec i (Z.of_nat (S idx))); [reflexivity|lia]. }
-        pose proof (found_contrib e F) as C.
+        pose proof (found_contrib e) as C.
         destruct (expand r) as [|c cs].
-        * rewrite IHe by (rewrite Q; exact I). rewrite Q. cbn [map]. rewrite app_nil_r, C. reflexivity.
-        * destruct C as [s C]. rewrite C. rewrite IHe by (rewrite Q; exact I). rewrite Q. cbn [map]. rewrite app_nil_r. reflexivity.
+        * rewrite IHe. rewrite Q. cbn [map]. rewrite app_nil_r. fold (Ref r e). rewrite <- C. reflexivity.
+        * destruct C as [s C]. rewrite C. rewrite IHe. rewrite Q. cbn [map]. rewrite app_nil_r. reflexivity.
       + assert (P : pick i idx (e :: es) = pick i (S idx) es).
         { unfold pick. destruct (Z.ltb_spec i (Z.of_nat idx)) as [L|L].
           - destruct (Z.ltb_spec i (Z.of_nat (S idx))); [reflexivity|lia].
           - destruct (Z.ltb_spec i (Z.of_nat (S idx))) as [L2|L2]; [lia|].
             replace (Z.to_nat i - idx)%nat with (S (Z.to_nat i - S idx)) by lia. reflexivity. }
-        rewrite P in F |- *. apply IHe. exact F.
+        rewrite P. apply IHe.
+  Qed.
+
+  (* ---- recursive descent: ..n followed by r ---- *)
+  Definition Below (n : list N) (x : jv) : list res := map RTree (flat_map (ref_eval r) (desc n x)).
+  Definition Own (x : jv) : list res := Ref r x.
+
+  Lemma obj_rec n ms : forall acc,
+    (forall k b x, In (k, b, x) ms -> exists s, EV x (XRec n :: expand r) = (Some (Below n x), s)) ->
+    obj_loop std_sems EV (XRec n :: expand r) ms acc
+    = (Some (acc ++ flat_map (fun m : list N * bool * jv => match m with (k, _, x) => (if list_eqb n k then Own x else []) ++ Below n x end) ms),
+       XRec n :: expand r).
+  Proof.
+    induction ms as [|[[k b] x] ms IHm]; intros acc H.
+    - cbn. rewrite app_nil_r. reflexivity.
+    - cbn [obj_loop do_field by_field std_sems rec_field is_rec flat_map].
+      destruct (H k b x (or_introl eq_refl)) as [sb Hb].
+      assert (Hr : forall k b x, In (k, b, x) ms -> exists s, EV x (XRec n :: expand r) = (Some (Below n x), s)).
+      { intros k' b' x' Hin. apply (H k' b' x'). right. exact Hin. }
+      destruct (list_eqb n k).
+      + pose proof (found_contrib x) as C.
+        destruct (expand r) as [|c cs].
+        * rewrite Hb. rewrite IHm by exact Hr. unfold Own. rewrite <- C. rewrite <- !app_assoc. reflexivity.
+        * destruct C as [s C]. rewrite C. rewrite Hb. rewrite IHm by exact Hr. unfold Own. rewrite <- !app_assoc. reflexivity.
+      + rewrite Hb. rewrite IHm by exact Hr. cbn [app]. rewrite <- !app_assoc. reflexivity.
+  Qed.
+
+  Lemma arr_rec n es : forall idx acc,
+    (forall e, In e es -> exists s, EV e (XRec n :: expand r) = (Some (Below n e), s)) ->
+    arr_loop std_sems EV (XRec n :: expand r) es idx acc
+    = (Some (acc ++ flat_map (Below n) es), XRec n :: expand r).
+  Proof.
+    induction es as [|e es IHe]; intros idx acc H.
+    - cbn. rewrite app_nil_r. reflexivity.
+    - cbn [arr_loop do_index by_index std_sems rec_index flat_map].
+      destruct (H e (or_introl eq_refl)) as [s He]. rewrite He.
+      rewrite IHe by (intros e' Hin; apply H; right; exact Hin). rewrite <- app_assoc. reflexivity.
+  Qed.
+
+  Lemma below_obj n ms :
+    Below n (JObj ms) = flat_map (fun m : list N * bool * jv => match m with (k, _, x) => (if list_eqb n k then Own x else []) ++ Below n x end) ms.
+  Proof.
+    unfold Below, Own, Ref. cbn [desc]. induction ms as [|[[k b] x] ms IHm]; [reflexivity|].
+    cbn [flat_map]. rewrite !flat_map_app, !map_app, IHm. destruct (list_eqb n k); cbn [flat_map app]; rewrite ?app_nil_r; reflexivity.
+  Qed.
+  Lemma below_arr n es : Below n (JArr es) = flat_map (Below n) es.
+  Proof.
+    unfold Below. cbn [desc]. induction es as [|e es IHe]; [reflexivity|].
+    cbn [flat_map]. rewrite flat_map_app, map_app, IHe. reflexivity.
+  Qed.
+
+  Lemma rec_all n : forall sz v, (size v <= sz)%nat -> exists s, EV v (XRec n :: expand r) = (Some (Below n v), s).
+  Proof.
+    induction sz as [|sz IHs]; intros v Hs; [destruct v; cbn in Hs; lia|].
+    destruct v as [t|es|ms].
+    - cbn [ev]. destruct t; eexists; reflexivity.
+    - cbn [ev]. rewrite arr_rec.
+      + rewrite below_arr. eexists; reflexivity.
+      + intros e Hin. apply IHs. pose proof (in_size_le e es Hin). cbn [size] in Hs. lia.
+    - cbn [ev]. rewrite obj_rec.
+      + rewrite below_obj. eexists; reflexivity.
+      + intros k b x Hin. apply IHs.
+        assert (L : (size x <= fold_right (fun kv a => size (snd kv) + a) 0 ms)%nat).
+        { clear - Hin. induction ms as [|[[k' b'] x'] ms IH]; [destruct Hin|]. cbn [fold_right snd]. destruct Hin as [E|Hin]; [inversion E; subst; lia|]. specialize (IH Hin). lia. }
+        cbn [size] in Hs. lia.
   Qed.
 End Ref.
 
 Lemma pick0 i es : pick i 0 es = if (i <? 0)%Z then None else nth_error es (Z.to_nat i).
 Proof. unfold pick. cbn [Z.of_nat]. rewrite Nat.sub_0_r. reflexivity. Qed.
 
-Lemma ev_ref : forall ns v, ns <> [] -> fits ns v = true ->
-  fst (ev std_sems v (expand ns)) = Some (map RTree (ref_eval ns v)).
+(* a selector of the other kind selects nothing *)
+Lemma arr_sel_none evk n c es : forall idx acc, arr_loop std_sems evk (XSel n :: c) es idx acc = (Some acc, XSel n :: c).
+Proof. induction es as [|e r IH]; intros idx acc; [reflexivity|]. cbn [arr_loop do_index by_index std_sems sel_index]. apply IH. Qed.
+Lemma obj_idx_none evk i c ms : forall acc, obj_loop std_sems evk (XIdx i :: c) ms acc = (Some acc, XIdx i :: c).
+Proof. induction ms as [|[[k b] x] r IH]; intro acc; [reflexivity|]. cbn [obj_loop do_field by_field std_sems idx_field is_rec]. rewrite app_nil_r. apply IH. Qed.
+Lemma obj_all_none evk c ms : forall acc, obj_loop std_sems evk (XAll :: c) ms acc = (Some acc, XAll :: c).
+Proof. induction ms as [|[[k b] x] r IH]; intro acc; [reflexivity|]. cbn [obj_loop do_field by_field std_sems all_field is_rec]. rewrite app_nil_r. apply IH. Qed.
+
+(* Extract = reference evaluation: every selector, recursive descent included, every document *)
+Lemma ev_ref : forall ns v, ns <> [] -> exists s, EV v (expand ns) = (Some (Ref ns v), s).
 Proof.
-  induction ns as [|nd r IHr]; intros v NE F; [contradiction|].
-  destruct nd as [n|i| |n]; cbn [fits] in F; try discriminate;
-    destruct v as [t|es|ms]; try discriminate.
-  - (* .name on an object *)
-    cbn [expand ev ref_eval]. rewrite (obj_sel r IHr n ms [] F). reflexivity.
-  - (* [i] on an array *)
-    cbn [expand ev ref_eval]. rewrite (arr_idx r IHr i es 0 []).
-    + rewrite pick0. destruct (i <? 0)%Z; [reflexivity|]. cbn [orb].
+  induction ns as [|nd r IHr]; intros v NE; [contradiction|].
+  assert (IH : forall x, r <> [] -> exists s, EV x (expand r) = (Some (Ref r x), s)) by (intros x N; apply IHr; exact N).
+  destruct nd as [n|i| |n].
+  - destruct v as [t|es|ms]; cbn [expand ev].
+    + destruct t; eexists; reflexivity.
+    + rewrite arr_sel_none. eexists; reflexivity.
+    + rewrite (obj_sel r IH). eexists; reflexivity.
+  - destruct v as [t|es|ms]; cbn [expand ev].
+    + destruct t; eexists; reflexivity.
+    + rewrite (arr_idx r IH). rewrite pick0. unfold Ref. cbn [ref_eval].
+      destruct (i <? 0)%Z; [eexists; reflexivity|]. cbn [orb].
       destruct (Z.leb_spec (Z.of_nat (length es)) i) as [L|L].
-      * assert (E : nth_error es (Z.to_nat i) = None) by (apply nth_error_None; lia). rewrite E. reflexivity.
-      * destruct (nth_error es (Z.to_nat i)); reflexivity.
-    + rewrite pick0. destruct (i <? 0)%Z; [exact I|]. cbn [orb] in F.
-      destruct (Z.leb_spec (Z.of_nat (length es)) i) as [L|L].
-      * assert (E : nth_error es (Z.to_nat i) = None) by (apply nth_error_None; lia). rewrite E. exact I.
-      * destruct (nth_error es (Z.to_nat i)); [exact F|exact I].
-  - (* [*] on an array *)
-    cbn [expand ev ref_eval]. rewrite (arr_all r IHr es 0 [] F). reflexivity.
+      * assert (E : nth_error es (Z.to_nat i) = None) by (apply nth_error_None; lia). rewrite E. eexists; reflexivity.
+      * eexists; reflexivity.
+    + rewrite obj_idx_none. eexists; reflexivity.
+  - destruct v as [t|es|ms]; cbn [expand ev].
+    + destruct t; eexists; reflexivity.
+    + rewrite (arr_all r IH). eexists; reflexivity.
+    + rewrite obj_all_none. eexists; reflexivity.
+  - cbn [expand]. destruct (rec_all r IH n (size v) v (le_n _)) as [s H]. exists s. rewrite H. reflexivity.
 Qed.
 
-(* Extract = reference evaluation, in document order, for every path without
-   recursive descent and every document whose values have the kinds the
-   selectors expect *)
-Theorem extract_ref copies ns doc : fits ns doc = true ->
-  fst (extract_call std_sems copies (is_root ns) (expand ns) doc) = Some (map RTree (ref_eval ns doc)).
+Theorem extract_ref copies ns doc :
+  fst (extract_call std_sems true copies (is_root ns) (expand ns) doc) = Some (map RTree (ref_eval ns doc)).
 Proof.
-  intro F. unfold extract_call. destruct ns as [|nd r] eqn:E.
+  unfold extract_call. destruct ns as [|nd r] eqn:E.
   - reflexivity.
   - cbn [is_root]. rewrite <- E in *. assert (NE : ns <> []) by (subst ns; discriminate).
-    pose proof (ev_ref ns doc NE F) as H. destruct (ev std_sems doc (expand ns)) as [o s]. exact H.
+    destruct (ev_ref ns doc NE) as [s H]. rewrite H. reflexivity.
 Qed.
 
-(* ---------- the recorded deviations, each with a witness outside `fits` ---------- *)
-(* $.x on 1 : the scalar itself *)
+(* ---------- the repaired deviations, each refuted for the old code ---------- *)
+(* $.x on 1 : before the repair the scalar itself *)
 Lemma selector_on_scalar_refuted :
-  fst (ev std_sems (JLeaf (TNum [49])) (expand [NSel [120]])) <> Some (map RTree (ref_eval [NSel [120]] (JLeaf (TNum [49])))).
+  fst (ev std_sems false (JLeaf (TNum [49])) (expand [NSel [120]])) <> Some (map RTree (ref_eval [NSel [120]] (JLeaf (TNum [49])))).
 Proof. vm_compute. discriminate. Qed.
 
-(* $..a on {"b":{"a":1}} : members that are not called a are skipped, not searched *)
-Lemma recursive_descent_shallow_refuted :
-  let d := JObj [([98], false, JObj [([97], false, JLeaf (TNum [49]))])] in
-  fst (ev std_sems d (expand [NRec [97]])) <> Some (map RTree (ref_eval [NRec [97]] d)).
-Proof. vm_compute. discriminate. Qed.
-
-(* $[*].a on [{"a":1},[2]] : an error where the reference skips the element *)
+(* $[*].a on [{"a":1},[2]] : before the repair an error where the reference skips the element *)
 Lemma wildcard_then_selector_refuted :
   let d := JArr [JObj [([97], false, JLeaf (TNum [49]))]; JArr [JLeaf (TNum [50])]] in
-  fst (ev std_sems d (expand [NAll; NSel [97]])) = None /\ ref_eval [NAll; NSel [97]] d = [JLeaf (TNum [49])].
+  fst (ev old_sems false d (expand [NAll; NSel [97]])) = None /\ ref_eval [NAll; NSel [97]] d = [JLeaf (TNum [49])].
 Proof. vm_compute. split; reflexivity. Qed.
